@@ -232,7 +232,7 @@ func (e *env) fuzz(rng *rand.Rand, n int) {
 				q = append(q, "digest="+pick(refs))
 			}
 		case 7:
-			path, route = pick([]string{"/", "/v2", "/v2/", "/v2//", "/v1/", "/v2/"+repo, "/v2/"+repo+"/", "/v2/"+repo+"/manifests", "/v2/"+repo+"/blobs/uploads", "/v2/_catalog",
+			path, route = pick([]string{"/", "/v2", "/v2/", "/v2//", "/v1/", "/v2/" + repo, "/v2/" + repo + "/", "/v2/" + repo + "/manifests", "/v2/" + repo + "/blobs/uploads", "/v2/_catalog",
 				"//v2/r/tags/list", "/v2/r/./tags/list", "/v2/r/tags/list/", "/v2/r/blobs/uploads//x", "/v2/r/blobs/uploads/../../tags/list", "/V2/r/tags/list"}), "other"
 		default:
 			path, route = "/v2/"+repo+"/"+pick([]string{"manifests", "blobs", "referrers", "tags"})+"/"+pick(refs)+"/"+pick(refs), "other"
